@@ -46,6 +46,10 @@ func (v *regView) MaxLines() int { return v.lines() }
 func regKeys(regs *state.RegMap) []expr.Key {
 	keys := make([]expr.Key, 0, regs.Len())
 	for k := range regs.Values() {
+		// The instruction pointer is not displayed (see lines).
+		if k == expr.IPKey {
+			continue
+		}
 		keys = append(keys, k)
 	}
 
